@@ -1,4 +1,5 @@
 pub mod c01;
+pub mod c02;
 pub mod c03;
 pub mod c04;
 pub mod c05;
@@ -34,6 +35,7 @@ pub fn level_of(prop: &str) -> &'static str {
 pub fn dispatch(prop: &str, ctx: &Ctx, rep: &mut Report) -> bool {
     match prop {
         "C01" => c01::run(ctx, rep),
+        "C02" => c02::run(ctx, rep),
         "C03" => c03::run(ctx, rep),
         "C04" => c04::run(ctx, rep),
         "C05" => c05::run(ctx, rep),
